@@ -1,9 +1,22 @@
 // Package c03: "What an agent reports is what the teamserver records and shows".
 package c03
 
-import "verifmc/ev"
+import (
+	"fmt"
+
+	"verifmc/ev"
+	"verifmc/par"
+)
 
 func Run(r *ev.Run) {
-	r.Rule = "part 1: every reader x every domain value x 0..17 trailing bytes x 3 fillings x both endiannesses, CanIRead over all type lists of length<=3 x every truncation; outcomes are distinct (reader,result-class) pairs"
-	runReaders(r)
+	r.Rule = "part 1: every reader x every domain value x 0..17 trailing bytes x 3 fillings x both endiannesses, CanIRead over all type lists of length<=3 x every truncation; part 3: explicit-state BFS over registration / reconnect / check-in-callback / mark-dead histories on ids {1,2,0,80000001}, every transition replayed on a fresh real teamserver through the listener, against a map of acknowledged registrations. distinct = distinct (reader,result-class) pairs and outcome classes"
+	r.Assume("the Demon's package layout is the demonwire transcription of Package.c / Demon.c", "ids {1, 2, 0, 0x80000001} and three keys stand for all ids and keys")
+	if par.InBFSWorker() == "" {
+		runReaders(r)
+	}
+	res := runRegHistories(r)
+	r.Extra["registration_histories"] = map[string]any{"states": res.States, "transitions": res.Transitions, "depth_completed": res.Depth, "new_states_by_depth": res.ByDepth}
+	if res.Capped {
+		r.NotExhaustive(fmt.Sprintf("registration-history BFS stopped by the internal deadline after depth %d", res.Depth))
+	}
 }
